@@ -11,8 +11,9 @@ Three clauses, three strengths (DESIGN.md section 4 / C20, assignment a10):
     every registered array argument reaches a shape check (C20_documented_arguments_are_checked -- "mentioned by
     a check", which is not yet "strict") and that, over a stated finite universe of shapes for all argument
     positions jointly, each callable's effective contract accepts EXACTLY the documented forms
-    (C20_contracts_accept_exactly_documented_forms).  Per-callable strictness for ALL shapes is proved for two
-    callables only; otherwise it is validated by the probe family.
+    (C20_contracts_accept_exactly_documented_forms).  Per-callable strictness for ALL shapes is proved by a
+    symbolic reading of the contract (P_shape_forms.accepts_iff_forms) for 57 callables directly and for 20 more
+    through their delegates; the 11 listed in C20_all_shapes_coverage keep the finite universe + probes.
 (2) STACKED = ROW BY ROW — VALIDATED (correspondence + oracle over the whole API, tools/api_registry.py); the
     per-function `_stacked_is_map` lemmas live with the other properties.
 (3) PURITY / DETERMINISM / REJECTION — VALIDATED, not proved (a Gallina function cannot mutate its argument):
@@ -43,7 +44,7 @@ ID = "C20"
 REPO = os.environ.get("POLLIWOG_REPO", "/repo")
 N_CASES = {"quick": 2, "thorough": 4, "search": 2}   # = value seeds per probe; the probe family itself is fixed
 SHARD = 150
-EXTRA_TARGETS = ["corr/C20_expected.vo", "proofs/P_shape.vo"]
+EXTRA_TARGETS = ["corr/C20_expected.vo", "proofs/P_shape.vo", "proofs/P_shape_forms.vo", "proofs/P_shape_tables.vo"]
 CASE_IMPORTS = [("PW.model", "M_shape"), ("PW.model", "M_inflection"), ("PW.model", "M_array"), ("PW.corr", "C20_expected")]
 RULE = ("probe family derived from tools/api_registry.py: for every public callable (introspected; a callable "
         "without a registry entry fails the check) every documented form with k in {2,3}, and for every array "
@@ -68,6 +69,7 @@ TRUSTED = ["Coq 8.16.1 kernel, vm_compute (golden-contract equality, finite tabl
            "tools/api_registry.py: documented single/stacked forms, hand-written from the docstrings",
            "clause (1) shape strictness: the shape-check LAYER is proved for all shapes; per callable, `accepts exactly the "
            "documented forms` is proved over a stated finite shape universe (and for all k, m for two callables) and "
+           "for ALL shapes for 57 callables directly and 20 through their delegates (C20_all_shapes_coverage), "
            "otherwise validated by probes; clause (2) stacked = row by row and clause (3) purity / determinism / "
            "rejection: VALIDATED on the probe family only",
            "NumPy, vg"]
@@ -76,9 +78,13 @@ ASSUMPTIONS = ["SPECIFICATION JUDGEMENT CALL: `one item against a stack` -- poin
                "reference_points_of_lines / vectors_along_lines (m,3) for project_point_to_line -- is NOT in the docstrings; "
                "the registry lists it as documented because the code admits it explicitly (`-1 if k is None else k`) and "
                "computes it row by row; read strictly, it is an undocumented accepted form",
-               "per-callable strictness (`accepted shapes = documented forms`) is PROVED only over the finite shape universe "
-               "stated in C20_contracts_accept_exactly_documented_forms (all argument positions jointly) and for all k, m "
-               "for two callables; beyond that it is validated by the probe family",
+               "per-callable strictness (`accepted shapes = documented forms`) is PROVED FOR ALL SHAPES for 57 of the 88 "
+               "registered array-taking callables (C20_accepts_iff_documented_form_all_shapes: no delegation, golden contract "
+               "in the normal form nf_ok) and, in terms of the callee's forms on the wired arguments, for 20 delegating "
+               "callables (C20_delegating_accepts_iff_callee_forms_all_shapes); the 11 callables listed in "
+               "C20_all_shapes_coverage (CheckSame / NeedsShape / CheckFlat contracts, their delegators, cv2_rodrigues, "
+               "world_to_view) have it only over the finite universe of C20_contracts_accept_exactly_documented_forms "
+               "(minus forms_exempt) and by probes",
                "clause (1) is a proof about the shape-check layer (M_shape.v) applied to the contracts extracted from "
                "the source; that NumPy code after the checks does not reject or broadcast further is validated by "
                "probing, not proved",
@@ -1138,7 +1144,7 @@ def golden_text():
     return head + body + "\n" + coq_tables() + SPEC_TAIL
 
 
-SPEC_TAIL = """
+SPEC_TAIL = r"""
 (* ---- specification vocabulary over these tables, used by the statements in props/C20.v ------------------------ *)
 Definition all_contracts : contracts := (expected ++ external_contracts)%list.
 
@@ -1162,6 +1168,37 @@ Definition forms_exempt : list string := (rv_name :: not_modelled)%list.
 Definition names_of (n : string) : list string := match assoc documented_args n with Some l => l | None => [] end.
 Definition forms_row (nf : string * list form) : bool :=
   mem (fst nf) forms_exempt || forms_agree all_contracts delegation forms_b0 (fst nf) (names_of (fst nf)) (snd nf).
+
+(* ALL-SHAPES strictness: a callable is covered when it has no delegation row, its own golden contract is in the normal
+   form M_shape.nf_ok, and the canonical forms computed symbolically from the contract (forms_of_contract) are, as a
+   set, the canonical forms of its documented forms. *)
+Definition forms_ext : list string := map fst forms_b0.
+Definition has_delegates (name : string) : bool :=
+  match assoc delegation name with Some (_ :: _) => true | _ => false end.
+Definition cdim_eq_dec (x y : cdim) : {x = y} + {x <> y}.
+Proof. decide equality; try apply PeanoNat.Nat.eq_dec; apply string_dec. Defined.
+Definition cshape_eq_dec (x y : cshape) : {x = y} + {x <> y}.
+Proof. decide equality. apply (list_eq_dec cdim_eq_dec). Defined.
+Definition cform_eq_dec : forall x y : cform, {x = y} + {x <> y}.
+Proof. apply list_eq_dec. intros [a s] [a' s']. destruct (string_dec a a') as [->|H]; [|right; congruence].
+  destruct (cshape_eq_dec s s') as [->|H]; [left; reflexivity|right; congruence]. Defined.
+Definition cform_mem (f : cform) (l : list cform) : bool := existsb (fun g => if cform_eq_dec f g then true else false) l.
+Definition all_shapes_row (nf : string * list form) : bool :=
+  let c := contract_of all_contracts (fst nf) in
+  let fs := forms_of_contract c (senv_of forms_b0) in
+  let ds := map (canon forms_ext) (snd nf) in
+  negb (has_delegates (fst nf)) && forallb nf_ok c &&
+  forallb (fun f => cform_mem f ds) fs && forallb (fun f => cform_mem f fs) ds.
+(* delegating callables: acceptance = own symbolic forms /\ every delegate's symbolic forms on the WIRED arguments *)
+Definition delegates_list (name : string) : list delegate := match assoc delegation name with Some ds => ds | None => [] end.
+Definition deleg_forms_ok (ds : list delegate) (args : aenv) : bool :=
+  forallb (fun d => in_cforms [] (forms_of_contract (contract_of all_contracts (callee d)) []) (wire (wiring d) args)) ds.
+Definition delegating_row (name : string) : bool :=
+  has_delegates name && forallb nf_ok (contract_of all_contracts name) &&
+  forallb (fun d => forallb nf_ok (contract_of all_contracts (callee d))) (delegates_list name).
+Definition all_shapes_via_delegates : list string := filter delegating_row (map fst documented_forms).
+Definition all_shapes_covered : list string := map fst (filter all_shapes_row documented_forms).
+Definition all_shapes_not_covered : list string := map fst (filter (fun nf => negb (all_shapes_row nf)) documented_forms).
 """
 
 
